@@ -464,6 +464,23 @@ int main(int argc, char **argv)
 				continue;
 			snprintf(fpath, sizeof(fpath), "%s/fld-%d%s", scratch, (int)getpid(), ext ? ext : "");
 			printf("fieldfile %s\n", argv[6 + i]);
+			fflush(stdout);
+			if (first == 0) {
+				/* the unmodified file first (degenerate but well-formed archives are inputs too) */
+				struct xmp_test_info ti;
+				xmp_context c = xmp_create_context();
+				FILE *f = fopen(fpath, "wb");
+				if (f) {
+					fwrite(in, 1, n, f);
+					fclose(f);
+				}
+				alarm(60);
+				xmp_test_module(fpath, &ti);
+				if (xmp_load_module(c, fpath) == 0)
+					xmp_release_module(c);
+				alarm(0);
+				xmp_free_context(c);
+			}
 			for (off = first; off <= count && off + 2 <= n; off++) {
 				int w, be, vi;
 				for (w = 2; w <= 4; w += 2) {
@@ -509,6 +526,53 @@ int main(int argc, char **argv)
 				}
 			}
 			unlink(fpath);
+			free(in);
+		}
+		printf("fieldsdone %ld\n", checked);
+		return 0;
+	}
+	if (!strcmp(mode, "fields32")) {
+		/* every 32-bit field of the first `count` bytes (from offset `first`) set to the values that
+		 * turn a count, size or address into a negative or huge number, both byte orders; loaded from
+		 * an exactly sized memory image (module loaders and in-memory depackers) */
+		static const uint32_t vals[] = { 0x7fffffff, 0x80000000u, 0xfffffffdu, 0xffffffffu };
+		int i;
+		long off, checked = 0;
+		for (i = 0; i < nfiles; i++) {
+			long n = 0;
+			unsigned char *in = read_file(argv[6 + i], &n), *exact;
+			if (!in)
+				continue;
+			exact = (unsigned char *)malloc(n > 0 ? n : 1);
+			printf("fieldfile %s\n", argv[6 + i]);
+			for (off = first; off <= count && off + 4 <= n; off++) {
+				int be, vi, j;
+				for (be = 0; be < 2; be++) {
+					for (vi = 0; vi < 4; vi++) {
+						xmp_context c;
+						memcpy(exact, in, n);
+						for (j = 0; j < 4; j++) {
+							int sh = be ? 8 * (3 - j) : 8 * j;
+							exact[off + j] = (unsigned char)(vals[vi] >> sh);
+						}
+						printf("field %ld 4 %d %d\n", off, be, vi);
+						fflush(stdout);
+						alarm(60);
+						c = xmp_create_context();
+						if (xmp_load_module_from_memory(c, exact, n) == 0) {
+							if (xmp_start_player(c, 8000, 0) == 0) {
+								xmp_play_frame(c);
+								xmp_end_player(c);
+							}
+							xmp_release_module(c);
+						}
+						xmp_free_context(c);
+						alarm(0);
+						checked++;
+					}
+				}
+			}
+			free(exact);
 			free(in);
 		}
 		printf("fieldsdone %ld\n", checked);
